@@ -22,7 +22,7 @@ RULE = ("3 of 4 runs: EVSE bench - one generated EVSE (continuous incl. min>0 / 
         "+-0.9e-3,+-1.1e-3,+-2e-3,+-1}, NaN, negatives, advertised values, plugin/unplug; 1 of 4: whole simulations with an "
         "invalid_pilot fault; non-trivial = probe within 2e-3 of a boundary with an EV connected; distinct = (EVSE class, "
         "parameter shape, sequence of probe kinds)")
-PROBES = ["near_boundary_with_ev", "near_boundary_no_ev", "rejected", "accepted_edge", "nan_pilot", "advertised_value",
+PROBES = ["finite_levels_replaced_after_construction", "near_boundary_with_ev", "near_boundary_no_ev", "rejected", "accepted_edge", "nan_pilot", "advertised_value",
           "plugin_occupied", "world_invalid_pilot", "world_rejected_with_ev", "min_gt_zero_evse", "inf_max_evse", "advertised_inf_max",
           "finite_without_zero", "finite_unsorted_or_dup", "twin_evses_world", "world_resume_json", "world_advertised_value",
           "plugin_occupied_same_session_id", "world_party_scribbled_on_handed_info", "rates_given_as_one_shot_iterable", "plugin_occupied_via_network", "plugin_occupied_newcomer_after_occupants_departure", "pilot_sent_through_network", "bench_network_over_64_stations", "plugin_occupied_same_object", "near_duplicate_levels"]
@@ -127,6 +127,9 @@ def gen(rs, tier):
             lo, hi = min(bs), max(bs)
             ops.append({"op": "set", "v": r.uniform(lo - 2, hi + 2), "kind": "rand"})
         elif k < 0.92:
+            if e["type"] == "Finite" and r.random() < 0.25:
+                # the owner derates / re-rates the charger after construction through its public attribute allowable_rates
+                ops.append({"op": "rerate", "mode": r.choice(["cut_top", "cut_top", "cut_bottom", "append_higher"]), "u": r.random()})
             ops.append({"op": "advertised"})
         elif k < 0.96 and ev is not None:
             ops.append({"op": "plugin", "same_id": r.random() < 0.4, "same_object": r.random() < 0.2, "via_network": r.random() < 0.5,
@@ -143,7 +146,8 @@ def check(sc):
         return check_world(sc)
     import warnings
     out = Outcome()
-    e = sc["evse"]
+    import copy as _copy
+    e = _copy.deepcopy(sc["evse"])      # (a re-rate operation changes the model's level list too)
     log = []
     kinds = []
     if e["type"] == "EVSE" and e.get("min", 0) > 0:
@@ -242,6 +246,20 @@ def check(sc):
                     if op["kind"] == "nan":
                         out.probe("nan_pilot")
                     try_set(op["v"], op["kind"], i)
+                elif o == "rerate":
+                    lv = evse_levels(e)
+                    pos = [x for x in lv if x > 0]
+                    if op["mode"] == "cut_top" and len(pos) >= 2:
+                        new = [0] + pos[:max(1, int(len(pos) * op["u"]))]
+                    elif op["mode"] == "cut_bottom" and len(pos) >= 2:
+                        new = [0] + pos[min(len(pos) - 1, 1 + int((len(pos) - 1) * op["u"])):]
+                    elif op["mode"] == "append_higher":
+                        new = lv + [max(lv) + round(1 + 30 * op["u"], 1)]
+                    else:
+                        continue
+                    evse.allowable_rates = list(new)
+                    e["rates"] = list(new)
+                    out.probe("finite_levels_replaced_after_construction")
                 elif o == "advertised":
                     vals = [evse.max_rate, evse.min_rate] + list(evse.allowable_pilot_signals)
                     for v in vals:
